@@ -95,7 +95,18 @@ type dlink struct {
 	up         bool
 	gossip     *slot
 	broadcasts map[mesh.PeerName]*slot
+	staged     []stagedMsg // encoded by the sender goroutine but not yet written to the connection
 	wire       []wireMsg
+}
+
+// stagedMsg is one encoded payload between GossipData.Encode() and the write to the connection: mesh's
+// sender goroutine encodes outside any lock, so other goroutines (other links, Send/Broadcast callers)
+// run in between. The slice is NOT copied here - it is whatever Encode returned.
+type stagedMsg struct {
+	kind byte
+	src  mesh.PeerName
+	bufs [][]byte
+	s    *slot
 }
 
 // Finding is something the transport layer itself observed (C13 part 2).
@@ -363,22 +374,36 @@ func (n *Net) flushSender(l *dlink) bool {
 			}()
 			bufs = s.data.Encode()
 		}()
-		got := content{}
-		for _, b := range bufs {
-			if dec, err := event.DecodeState(b); err == nil {
-				got.maxWith(readContent(dec))
-			}
-			l.wire = append(l.wire, wireMsg{kind: kind, src: src, payload: append([]byte(nil), b...)})
-		}
-		n.Stats["payloads_sent"]++
-		if s.queued > 1 {
-			n.Stats["coalesced_sends_checked"]++
-		}
-		if miss := s.want.lacks(got); len(miss) > 0 {
-			n.finding("coalescing-lost-update/"+s.site, fmt.Sprintf("link %d->%d: %d payloads were queued since the last send; the bytes finally sent lack %d of their updates (e.g. %s)", l.from, l.to, s.queued, len(miss), miss[0]))
-		}
+		l.staged = append(l.staged, stagedMsg{kind: kind, src: src, bufs: bufs, s: s})
 		sent = true
 	}
+}
+
+// transmit writes the staged payloads of the link to its wire (the copy into the connection) and checks
+// that the bytes actually written dominate everything that was queued for them.
+func (n *Net) transmit(l *dlink) {
+	for _, st := range l.staged {
+		got := content{}
+		undecodable := 0
+		for _, b := range st.bufs {
+			if dec, err := event.DecodeState(b); err == nil {
+				got.maxWith(readContent(dec))
+			} else {
+				undecodable++
+			}
+			l.wire = append(l.wire, wireMsg{kind: st.kind, src: st.src, payload: append([]byte(nil), b...)})
+		}
+		n.Stats["payloads_sent"]++
+		if st.s.queued > 1 {
+			n.Stats["coalesced_sends_checked"]++
+		}
+		if undecodable > 0 {
+			n.finding("sent-bytes-corrupted/"+st.s.site, fmt.Sprintf("link %d->%d: the bytes written to the connection no longer decode (the buffer returned by Encode changed between Encode and the write)", l.from, l.to))
+		} else if miss := st.s.want.lacks(got); len(miss) > 0 {
+			n.finding("coalescing-lost-update/"+st.s.site, fmt.Sprintf("link %d->%d: %d payloads were queued since the last send; the bytes finally sent lack %d of their updates (e.g. %s)", l.from, l.to, st.s.queued, len(miss), miss[0]))
+		}
+	}
+	l.staged = nil
 }
 
 // deliverOne pops the head of the wire and hands it to the receiver as gossipChannel.deliver* does.
@@ -443,7 +468,7 @@ func (n *Net) sortedLinks() []*dlink {
 // Pending tells whether anything is queued or in flight.
 func (n *Net) Pending() bool {
 	for _, l := range n.links {
-		if l.gossip != nil || len(l.broadcasts) > 0 || len(l.wire) > 0 {
+		if l.gossip != nil || len(l.broadcasts) > 0 || len(l.staged) > 0 || len(l.wire) > 0 {
 			return true
 		}
 	}
@@ -458,13 +483,21 @@ func (n *Net) Drain() {
 	n.draining = true
 	defer func() { n.draining = false }()
 	for guard := 0; guard < 100000 && n.Pending(); guard++ {
-		for _, l := range n.sortedLinks() {
+		links := n.sortedLinks()
+		for _, l := range links {
 			if !l.up {
-				l.gossip, l.broadcasts, l.wire = nil, map[mesh.PeerName]*slot{}, nil
+				l.gossip, l.broadcasts, l.staged, l.wire = nil, map[mesh.PeerName]*slot{}, nil, nil
 				continue
 			}
-			n.flushSender(l)
-			for len(l.wire) > 0 {
+			n.flushSender(l) // every sender encodes ...
+		}
+		for _, l := range links {
+			if l.up {
+				n.transmit(l) // ... before any of them writes
+			}
+		}
+		for _, l := range links {
+			for l.up && len(l.wire) > 0 {
 				n.deliverOne(l)
 			}
 		}
@@ -487,6 +520,9 @@ func (n *Net) Step() bool {
 		}
 		if l.gossip != nil || len(l.broadcasts) > 0 {
 			acts = append(acts, func() { n.flushSender(l) })
+		}
+		if len(l.staged) > 0 {
+			acts = append(acts, func() { n.transmit(l) })
 		}
 		if len(l.wire) > 0 {
 			acts = append(acts, func() { n.deliverOne(l) })
@@ -521,7 +557,7 @@ func (n *Net) LinkDown(i, j int) {
 	for _, d := range [][2]int{{i, j}, {j, i}} {
 		if l := n.links[d]; l != nil {
 			l.up = false
-			l.gossip, l.broadcasts, l.wire = nil, map[mesh.PeerName]*slot{}, nil
+			l.gossip, l.broadcasts, l.staged, l.wire = nil, map[mesh.PeerName]*slot{}, nil, nil
 		}
 	}
 	n.Stats["link_down"]++
